@@ -174,8 +174,14 @@ def failures(P, R, ld):
                 R.ob('C20.MPT.1', False, P.relloc((main.blocks[bid].get('term') or {}).get('loc', '?')), 'main treats every non-zero result of the module loader as a failure (tests %s)' % e.describe(), key='propagate:main-test')
                 R.obligations[-1]['function'] = main.name
             if r and isinstance(r[0], dict) and r[0].get('k') == 'callref' and r[0].get('callee') == 'module_load_list' and r[1] == '!=' and const_of(r[2]) == 0:
-                rets = [t for t in main.block_sites(e.dst) if t.ev['k'] == 'ret']
-                R.ob('C20.MPT.1', bool(rets) and const_of(rets[0].ev.get('val')) not in (None, 0), rets[0] if rets else main, 'main exits with failure when module loading failed', key='propagate:main')
+                fe = (e.src, e.dst, e.label)
+
+                def on_edge_m(st, e2, fe=fe):
+                    return 'failed' if (e2.src, e2.dst, e2.label) == fe else st
+                bm, _, _, _ = main.forward('pre', None, on_edge_m)
+                frets = [t for t in main.sites() if t.ev['k'] == 'ret' and 'failed' in bm.get(t.key, set())]
+                okm = bool(frets) and all(const_of(main.expand_local(t.ev.get('val'), t) if isinstance(t.ev.get('val'), dict) else t.ev.get('val')) not in (None, 0) for t in frets)
+                R.ob('C20.MPT.1', okm, frets[0] if frets else main, 'main exits with failure when module loading failed', key='propagate:main')
     # dependency loop -> FATAL
     dfs = P.need_fn('module_dfs')
     for bid in dfs.reachable_blocks():
